@@ -470,7 +470,7 @@ def origin_text(sl, e):
     return txt
 
 
-def foreach_sites(prog, func, collection_regex, callee_pred, unconditional=True):
+def foreach_sites(prog, func, collection_regex, callee_pred, unconditional=True, search=False):
     """Where does `func` apply a call (callee_pred(path) -> bool) to EVERY element of an iteration over a collection whose access path matches
     collection_regex?  Two source idioms are the same statement:
       (a) an iterator adaptor driven to the end (`for_each`, or `map/filter/..` finished by `collect/count/for_each/last/sum`) whose closure makes
@@ -507,7 +507,9 @@ def foreach_sites(prog, func, collection_regex, callee_pred, unconditional=True)
                 if not ok and 0 not in set(x.bb for x in cs):
                     continue
             m = s.term.callee_path() or ""
-            if re.search(r"::(for_each)$", m):
+            # search=True: the caller asks for "offered to the elements in order until one accepts" (a loop with `break`, or
+            # position/find/find_map/any), not for "applied to every element"
+            if re.search(r"::(for_each|try_for_each|fold)$", m) or (search and re.search(r"::(position|find|find_map|any|all)$", m)):
                 out.append((s.bb, "adaptor " + m.split("::")[-1], s))
             # lazy adaptors (`map`, `filter`, ...) are driven by a later consumer in the same function: use the consumer's block
             elif re.search(r"::(map|filter|filter_map|inspect)$", m):
@@ -654,3 +656,19 @@ def norm_unwrap(e):
     if e[0] == "var" and isinstance(e[2], str) and e[2].endswith(("@Some.0", "@Ok.0")):
         return ("proj", e[:2] + (e[2].rsplit("@", 1)[0],) + e[3:], "@" + e[2].rsplit("@", 1)[1])
     return tuple(norm_unwrap(x) if isinstance(x, tuple) else x for x in e)
+
+
+def enum_test(fact):
+    """(subject expr, variant name, truth) when the fact tests a value against one enum variant - as a match arm (`x is V`) or as an equality
+    with the unit variant (`x == Enum::V` / `!=`); None otherwise"""
+    (a, t) = fact
+    if a[0] == "variant":
+        return a[1], a[2], t
+    if a[0] == "eq":
+        for x_, y_ in ((a[1], a[2]), (a[2], a[1])):
+            y2 = y_
+            while y2[0] in ("ref", "deref"):
+                y2 = y2[1]
+            if y2[0] == "aggr" and not y2[3]:
+                return x_, y2[2], t
+    return None
